@@ -49,14 +49,16 @@ Theorem C15_refine_droplets_independent :
 Proof. exact refine_droplets_independent. Qed.
 Print Assumptions C15_refine_droplets_independent.
 
-(* EmulsionTimeCourse.from_storage with any usable process count under any schedule returns what the
-   serial analysis of Model/Online.v returns (emulsions, times, first exception) *)
+(* EmulsionTimeCourse.from_storage with any usable process count, either setting of `progress` (truthy or
+   not) and any schedule returns what the serial analysis of Model/Online.v returns (emulsions paired with
+   their times, first exception) *)
 Theorem C15_from_storage_par_eq_ser :
   forall (value : Type) (parse : string -> value) (field emulsion exn : Type)
          (locate : list (string * option value) -> field -> res exn emulsion)
-         (user : kwdict value) (np : nproc) (ncpu : nat) (sigma : list nat) (storage : list (field * Q)),
+         (user : kwdict value) (progress : bool) (np : nproc) (ncpu : nat) (sigma : list nat)
+         (storage : list (field * Q)),
     usable np ncpu ->
-    from_storage_np value parse field emulsion exn locate user np ncpu sigma storage
+    from_storage_np value parse field emulsion exn locate user progress np ncpu sigma storage
     = Done (from_storage value parse field emulsion exn locate G O_serial user storage).
 Proof. exact from_storage_par_eq_ser. Qed.
 Print Assumptions C15_from_storage_par_eq_ser.
@@ -64,21 +66,27 @@ Print Assumptions C15_from_storage_par_eq_ser.
 Theorem C15_from_storage_independent :
   forall (value : Type) (parse : string -> value) (field emulsion exn : Type)
          (locate : list (string * option value) -> field -> res exn emulsion)
-         (user : kwdict value) (np1 np2 : nproc) (ncpu1 ncpu2 : nat) (sigma1 sigma2 : list nat)
-         (storage : list (field * Q)),
+         (user : kwdict value) (progress1 progress2 : bool) (np1 np2 : nproc) (ncpu1 ncpu2 : nat)
+         (sigma1 sigma2 : list nat) (storage : list (field * Q)),
     usable np1 ncpu1 -> usable np2 ncpu2 ->
-    from_storage_np value parse field emulsion exn locate user np1 ncpu1 sigma1 storage
-    = from_storage_np value parse field emulsion exn locate user np2 ncpu2 sigma2 storage.
+    from_storage_np value parse field emulsion exn locate user progress1 np1 ncpu1 sigma1 storage
+    = from_storage_np value parse field emulsion exn locate user progress2 np2 ncpu2 sigma2 storage.
 Proof. exact from_storage_independent. Qed.
 Print Assumptions C15_from_storage_independent.
 
 (* branch selection and worker count as written in the source *)
 Theorem C15_branches :
-  (forall np, (is_serial P_refine np = true <-> np = NPInt 1) /\ (is_serial P_storage np = true <-> np = NPInt 1)) /\
+  (forall np, (is_serial P_refine np = true <-> np = NPInt 1) /\
+              (forall progress, is_serial (P_storage progress) np = true <-> np = NPInt 1)) /\
   (forall np ncpu, workers P_refine np ncpu = match np with NPAuto => ncpu | NPInt n => n end /\
-                   workers P_storage np ncpu = match np with NPAuto => ncpu | NPInt n => n end) /\
-  (rd_serial_iter = rd_parallel_iter /\ fs_serial_iter = fs_parallel_iter /\ fs_times_from = fs_serial_iter).
-Proof. exact (conj serial_iff_one (conj workers_rule iterate_same_argument)). Qed.
+                   (forall progress, workers (P_storage progress) np ncpu
+                                     = match np with NPAuto => ncpu | NPInt n => n end)) /\
+  (rd_serial_iter = rd_parallel_iter /\ fs_serial_iter = fs_parallel_iter /\ fs_times_from = fs_serial_iter) /\
+  (p_gather P_refine = GatherByIndex /\ forall progress, p_gather (P_storage progress) = GatherByIndex).
+Proof.
+  exact (conj serial_iff_one (conj workers_rule (conj iterate_same_argument
+          (conj (eq_refl : p_gather P_refine = GatherByIndex) storage_gathers_by_index)))).
+Qed.
 Print Assumptions C15_branches.
 
 (* what the theorems exclude: a gatherer that returns results in completion order *)
